@@ -32,6 +32,17 @@ def harnesses(tier, seed):
         for c in cls:
             for mode in ('fwd', 'rev'):
                 jobs.append(dict(fn='h_scaled', params=dict(prog=prog, cls=c, mode=mode)))
+    # scaling declared after the fact with set_output_solver_options, on ONE component only (so that nothing else in the model
+    # forces the adder/scaler arrays to exist), and Gauss-Seidel with Aitken relaxation (first relaxation factor 1: one sweep of a
+    # feed-forward group must give the exact solution)
+    for prog in (['basic', 'idx_flat'] if q else ['basic', 'idx_flat', 'auto_units', 'branches', 'matfree']):
+        for c in (['ref0only', 'flip'] if q else ['ref0only', 'flip', 'arr', 'pos', 'resref']):
+            for mode in ('fwd', 'rev'):
+                jobs.append(dict(fn='h_scaled_options', params=dict(prog=prog, cls=c, mode=mode)))
+    for prog in (['basic', 'idx_flat'] if q else ['basic', 'idx_flat', 'branches', 'auto_units']):
+        for c in (['flip', 'arr'] if q else ['flip', 'arr', 'ref0only', 'pos']):
+            for aitken in (True, False):
+                jobs.append(dict(fn='h_nlbgs', params=dict(prog=prog, cls=c, aitken=aitken, use_apply=not aitken)))
     for prog in (['implicit_asm'] if q else list(IMPLICIT)):
         for c in ['flip2', 'arr2', 'ref0only', 'neg4'][:2 if q else 4]:
             for mode in ('fwd', 'rev'):
@@ -118,3 +129,44 @@ def h_scaled_implicit(ctx, prog, cls, mode):
         C01.h_implicit(ctx, prog + '@' + cls, mode)
     finally:
         C01.IMPLICIT.pop(prog + '@' + cls, None)
+
+
+def _one_comp_options(P, cls):
+    """scaling of the FIRST component's outputs declared through System.set_output_solver_options before setup"""
+    first = [it for it in P.items if it[0] == 'comp'][0]
+    _, g, cname, spec, ins, style, implicit = first
+    path = (g + '.' if g else '') + cname
+    kws = {o: scaling_kwargs(cls, meta['shape']) for o, meta in spec.outs.items()}
+
+    def pre_setup(p, groups, comps):
+        for o, kw in kws.items():
+            kw = {k: (np.array(v, dtype=float) if isinstance(v, np.ndarray) else float(v)) for k, v in kw.items()}
+            p.model.set_output_solver_options(path + '.' + o, **kw)
+    P.pre_setup = pre_setup
+    P.features = list(P.features) + ['ref/ref0/res_ref via set_output_solver_options: ' + cls]
+    return P
+
+
+def h_scaled_options(ctx, prog, cls, mode):
+    explicit_totals(ctx, lambda: _one_comp_options(LIBRARY[prog](), cls), mode, after_run=_physical_checks(ctx, 1e-9))
+
+
+def h_nlbgs(ctx, prog, cls, aitken, use_apply):
+    """Gauss-Seidel (with Aitken relaxation) on the scaled feed-forward model: one sweep solves it exactly"""
+    def make():
+        P = apply_scaling(LIBRARY[prog](), cls)
+        mk = lambda: om.NonlinearBlockGS(maxiter=1, use_aitken=aitken, use_apply_nonlinear=use_apply, iprint=-1, err_on_non_converge=False)
+        for g in {it[1] for it in P.items if it[0] == 'comp' and it[1]} | {''}:
+            P.group_opts.setdefault(g, {})['nonlinear_solver'] = mk
+        return P
+    P = make()
+    p = P.build(ctx)
+    vals = P.set_indeps(ctx, p)
+    p.run_model()
+    out, exp_in, _ = P.reference(ctx, vals)
+    for name, want in out.items():
+        if name not in vals:
+            ctx.eq('out:' + name, p.get_val(name), want, 1e-9)
+    for name, want in exp_in.items():
+        ctx.eq('in:' + name, p.get_val(name, from_src=False), want, 1e-9)
+    ctx.observe('outs', [p.get_val(o) for o in P.ofs])
